@@ -5,21 +5,22 @@ package proto
 // Config is written by the parent to a JSON file whose path is passed to the
 // child in env VERIF_CHILD_CONFIG.  One child process == one server lifetime.
 type Config struct {
-	Dir             string         `json:"dir"`               // root of the durable state (survives lifetimes)
-	RWMode          string         `json:"rwmode,omitempty"`  // "", "readonly", "fullwrite"
-	AdminToken      string         `json:"admintoken,omitempty"`
-	InstanceIDStart uint32         `json:"iid_start,omitempty"`
-	MutIDStart      uint64         `json:"mutid_start,omitempty"`
-	ShutdownDelay   int            `json:"shutdown_delay"`
-	AllowSplit      bool           `json:"allow_split,omitempty"`
-	Caches          map[string]int `json:"caches,omitempty"` // MB per cache id
-	SecondStore     bool           `json:"second_store,omitempty"`
-	NoLogStore      bool           `json:"no_log_store,omitempty"`
-	MutLogJSON      bool           `json:"mutlog_json,omitempty"` // enable [mutations] jsonstore
-	Verbose         bool           `json:"verbose,omitempty"`
-	Faults          *FaultPlan     `json:"faults,omitempty"` // active from the first store call of start-up
-	Sched           Sched          `json:"sched"`            // schedule source for the boot phase
-	EventDetail     int            `json:"event_detail"`     // 0 none, 1 decisions+faults, 2 every yield
+	Dir             string            `json:"dir"`              // root of the durable state (survives lifetimes)
+	RWMode          string            `json:"rwmode,omitempty"` // "", "readonly", "fullwrite"
+	AdminToken      string            `json:"admintoken,omitempty"`
+	InstanceIDStart uint32            `json:"iid_start,omitempty"`
+	MutIDStart      uint64            `json:"mutid_start,omitempty"`
+	ShutdownDelay   int               `json:"shutdown_delay"`
+	AllowSplit      bool              `json:"allow_split,omitempty"`
+	Caches          map[string]int    `json:"caches,omitempty"` // MB per cache id
+	SecondStore     bool              `json:"second_store,omitempty"`
+	Backends        map[string]string `json:"backends,omitempty"` // "<instance name>:<uuid>" -> store alias ("second")
+	NoLogStore      bool              `json:"no_log_store,omitempty"`
+	MutLogJSON      bool              `json:"mutlog_json,omitempty"` // enable [mutations] jsonstore
+	Verbose         bool              `json:"verbose,omitempty"`
+	Faults          *FaultPlan        `json:"faults,omitempty"` // active from the first store call of start-up
+	Sched           Sched             `json:"sched"`            // schedule source for the boot phase
+	EventDetail     int               `json:"event_detail"`     // 0 none, 1 decisions+faults, 2 every yield
 }
 
 // Sched selects the source of scheduling decisions: explicit Choices first,
@@ -86,13 +87,13 @@ type Req struct {
 // StoreOp is a store-level call issued by the harness through the same wrapped
 // store the handlers use (C05/C06 store-level observation points).
 type StoreOp struct {
-	Op       string `json:"op"`       // get | getrange | keysinrange | sendkeysinrange | processrange | deleterange | rawrange | put | delete
-	Data     string `json:"data"`     // data instance name
-	UUID     string `json:"uuid"`     // version
-	KeyBeg   string `json:"beg"`      // keyvalue-type string key (converted with keyvalue.NewTKey)
-	KeyEnd   string `json:"end"`
-	Value    []byte `json:"value,omitempty"`
-	RawInst  bool   `json:"raw_inst,omitempty"` // rawrange over the whole instance
+	Op      string `json:"op"`   // get | getrange | keysinrange | sendkeysinrange | processrange | deleterange | rawrange | put | delete
+	Data    string `json:"data"` // data instance name
+	UUID    string `json:"uuid"` // version
+	KeyBeg  string `json:"beg"`  // keyvalue-type string key (converted with keyvalue.NewTKey)
+	KeyEnd  string `json:"end"`
+	Value   []byte `json:"value,omitempty"`
+	RawInst bool   `json:"raw_inst,omitempty"` // rawrange over the whole instance
 }
 
 // Resp is the outcome of one Req.
@@ -111,20 +112,20 @@ type Resp struct {
 
 // Result is the child's answer to one Cmd (and to the implicit boot).
 type Result struct {
-	OK       bool     `json:"ok"`
-	Err      string   `json:"err,omitempty"`
-	Resps    []Resp   `json:"resps,omitempty"`
-	Events   []string `json:"events,omitempty"`
-	Choices  []int    `json:"choices,omitempty"`  // decisions taken (index into sorted parked set)
-	Widths   []int    `json:"widths,omitempty"`   // size of parked set at each decision
-	NowMS    int64    `json:"now_ms"`             // fake clock, ms since bubble epoch
-	Parked   int      `json:"parked"`             // goroutines still parked when the command ended
-	Wedged   bool     `json:"wedged,omitempty"`   // unfinished requests, nothing parked, clock advance did not help
-	Crashed  bool     `json:"crashed,omitempty"`  // planned crash fired (last message of the lifetime)
-	CrashLbl string   `json:"crash_label,omitempty"`
-	Writes   int      `json:"writes"`             // mutating store/log calls so far in this lifetime
-	WriteLog []string `json:"write_log,omitempty"` // labels of mutating calls during this command
-	Faults   map[string]int `json:"faults,omitempty"` // fault kinds that actually fired during this command
-	Seq      uint64   `json:"seq"`
-	Stacks   string   `json:"stacks,omitempty"`
+	OK       bool           `json:"ok"`
+	Err      string         `json:"err,omitempty"`
+	Resps    []Resp         `json:"resps,omitempty"`
+	Events   []string       `json:"events,omitempty"`
+	Choices  []int          `json:"choices,omitempty"` // decisions taken (index into sorted parked set)
+	Widths   []int          `json:"widths,omitempty"`  // size of parked set at each decision
+	NowMS    int64          `json:"now_ms"`            // fake clock, ms since bubble epoch
+	Parked   int            `json:"parked"`            // goroutines still parked when the command ended
+	Wedged   bool           `json:"wedged,omitempty"`  // unfinished requests, nothing parked, clock advance did not help
+	Crashed  bool           `json:"crashed,omitempty"` // planned crash fired (last message of the lifetime)
+	CrashLbl string         `json:"crash_label,omitempty"`
+	Writes   int            `json:"writes"`              // mutating store/log calls so far in this lifetime
+	WriteLog []string       `json:"write_log,omitempty"` // labels of mutating calls during this command
+	Faults   map[string]int `json:"faults,omitempty"`    // fault kinds that actually fired during this command
+	Seq      uint64         `json:"seq"`
+	Stacks   string         `json:"stacks,omitempty"`
 }
